@@ -272,13 +272,15 @@ func init() {
 		return &Check{ID: "C16", Scenarios: []Scenario{
 			mk("spawnsync-histories", false, map[string]int{"quick": 2, "thorough": 3}, maxLen),
 			mk("inspected-histories", true, map[string]int{"quick": 1, "thorough": 2}, maxLen),
-			mk("long-histories", false, map[string]int{"quick": 1, "thorough": 2}, func(string) int { return 3 }),
 			mk("longer-histories-default-schedule", false, map[string]int{"quick": 0, "thorough": 0}, func(tier string) int {
 				if tier == "thorough" {
 					return 4
 				}
 				return 1
 			}),
+			// last: at the thorough bound this scenario may use up the remaining time budget (the
+			// completed part is reported, the tier then says exhaustive:false)
+			mk("long-histories", false, map[string]int{"quick": 1, "thorough": 2}, func(string) int { return 3 }),
 		}}
 	})
 }
